@@ -484,7 +484,8 @@ def _r6(ctx):
     # the list consulted is the CONFIGURED pseudo-element list whenever any list was configured
     kp = pkg.method("Species", "known_pseudoelements") and pkg.expanded("Species", "known_pseudoelements")
     ctx.saw("naunet/species.py", "Species.known_pseudoelements")
-    kfl = Flow(pkg.expanded("Species", "known_pseudoelements"), "naunet/species.py")      # small predicates of the class put back
+    # predicate helpers of the class (`cls._is_unset()`) are read through as the conditions they return
+    kfl = Flow(pkg.expanded("Species", "known_pseudoelements"), "naunet/species.py", resolver=lambda name: pkg.resolve("Species", name)[1])
     CLS = ("param", "cls")
     KE, KP, DEF = ("attr", CLS, "_known_elements"), ("attr", CLS, "_known_pseudoelements"), ("attr", CLS, "default_pseudoelements")
     rets = [(v, tuple((simp(g), p) for g, p in gs)) for f in kfl.facts if f.kind == "return"
@@ -506,13 +507,20 @@ def _r6(ctx):
             return all(xs) if c[1] == "And" else any(xs)
         return None
     okp = bool(rets)
+    anyundec = False
     for ke in (False, True):
         for kp_ in (False, True):
             env = {KE: ke, KP: kp_}
             taken = [v for v, gs in rets if all(ev(g, env) is not None and ev(g, env) == p for g, p in gs)]
             undec = any(ev(g, env) is None for v, gs in rets for g, p in gs)
+            anyundec = anyundec or undec
             wantv = DEF if (not ke and not kp_) else KP
             okp = okp and not undec and len(taken) >= 1 and taken[0] == wantv
+    if anyundec:
+        # a condition that is not a combination of "this list is configured": not evidence of a wrong list
+        ctx.unrec("R6", "Species.known_pseudoelements:configured list", ("naunet/species.py", kp.lineno), "the conditions selecting the list are not tests of the two configured lists: "
+                  + "; ".join(f"{show(v)[:40]} if {[('' if p else 'not ') + show(g)[:60] for g, p in gs]}" for v, gs in rets)[:300])
+        return
     ctx.check(okp, "R6", "Species.known_pseudoelements:configured list", ("naunet/species.py", kp.lineno),
               "the default pseudo-elements are used only when neither list was configured; otherwise exactly the configured pseudo-elements" if okp else
               "the pseudo-element list consulted by _create_species is not `configured list, or the defaults when nothing at all is configured`: with elements configured and no "
